@@ -10,7 +10,12 @@ DRV = L.DRV01
 
 REGISTRY = {
     'id': 'C01',
-    'text': 'Lean theorems about an executable model of the three-phase parser, convert_type and the serializer, for every canonical '
+    'text': 'Mechanical tie for the serializer: harness/translate_serializer.py reads the CURRENT source of Mod.serialize, '
+            '_serialize_annotation_start/middle/end, _serialize_annotation and MultiProFormaAnnotation.serialize with ast and emits '
+            'Generated/SerializerPy.lean; Props/C01Gen proves each equal to the hand model (GenSer.f = Pept.f) and transfers '
+            'parse_serialize, serialize_fixpoint, serialize_total and the +-joined multi-chain round trip to the definitions read off '
+            'the source (a function outside the small statement subset is reported as untranslated and stays tied by correspondence). '
+            'Lean theorems about an executable model of the three-phase parser, convert_type and the serializer, for every canonical '
             'annotation (decidable predicate canon = image of the documented grammar), every length, both include_plus settings: '
             'scan_roundtrip, parseMod_serialize, parseMods_roundtrip, parseStart_serializeStart, parseMiddle_serializeMiddle, '
             'parseEnd_serializeEnd, parse_serialize (parse(serialize(a)) = a for single chains; stated for any per-modification choice of the + '
@@ -21,7 +26,8 @@ REGISTRY = {
             'parse_serializeMultiFixed (mixed +/// relative to the corrected joiner constant); parse_serialize_crosslink_false is the decide-checked counter-example for the known finding '
             '(serializer writes two backslashes for //). The model is tied to /repo by differential correspondence on grammar-derived '
             'strings (all spelling families, 1-3 chains), test-file strings and mutants; denotation / round-trip oracles run on the real code',
-    'note': 'trusted: Lean kernel, axioms propext/Classical.choice/Quot.sound, the correspondence harness, the reading of canon as the image '
+    'note': 'trusted: Lean kernel, axioms propext/Classical.choice/Quot.sound, the serializer subset reader translate_serializer.py (its '
+            'output Generated/SerializerPy.lean is committed and diffable), the correspondence harness, the reading of canon as the image '
             'of the documented grammar (the generator output is checked against it on every run); floats with more than 15 significant '
             'digits or decimal exponent beyond 290 and non-ASCII text are outside the round-trip model; equality proved is structural, '
             'which implies the library multiset ==; known finding KF-C01-crosslink-backslash (pinned by a test and a doctest)',
@@ -36,8 +42,16 @@ def run(chk):
     tier = chk.tier
     rng = chk.rng
     quick = tier == 'quick'
-    chk.lean_build(['PeptVerif.Props.C01'], DRV)
+    # serializer source -> Generated/SerializerPy.lean + Props/C01Gen.lean (equality with the hand model), regenerated on change
+    from .. import translate_serializer
+    gen_done, gen_unt = translate_serializer.translate(chk)
+    chk.lean_build(['PeptVerif.Props.C01', 'PeptVerif.Props.C01Gen'], DRV)
     chk.trusted += [
+        'harness/translate_serializer.py: the reading of the Python statement subset of the serializer (comps.append, has_x() / is not '
+        'None / truthiness guards, for-loops over guarded lists, enumerate(sequence), int ==, f-strings of simple parts, the fixed loop '
+        'shape of MultiProFormaAnnotation.serialize) into the combinators of Model/SerializeC.lean; include_plus is read as the '
+        'per-modification choice `plus mod`. Translated on this run: ' + (', '.join(gen_done) or 'nothing') +
+        ('; tied by correspondence only: ' + ', '.join(gen_unt) if gen_unt else ''),
         'modelled: _ProFormaParser (all phases, chain loop), _is_unmodified, parse, Mod.__post_init__/convert_type on ASCII, '
         'Mod.serialize, _serialize_annotation_start/middle/end, MultiProFormaAnnotation.serialize; '
         'not modelled: ProFormaAnnotation.__eq__ (multiset equality; the theorems prove the stronger structural equality), '
@@ -386,7 +400,8 @@ def run(chk):
                 'string literals of the repo tests, single-token mutations; non-trivial = the parse result has at least one modification '
                 'list / the string has a section character; distinct = distinct protocol line or string')
     if not quick:
-        chk.leanchecker(['PeptVerif.Props.C01', 'PeptVerif.Lemmas.ParserSurface', 'PeptVerif.Lemmas.ParserChain',
+        chk.leanchecker(['PeptVerif.Props.C01', 'PeptVerif.Props.C01Gen', 'PeptVerif.Generated.SerializerPy',
+                         'PeptVerif.Lemmas.SerializerGen', 'PeptVerif.Model.SerializeC', 'PeptVerif.Lemmas.ParserSurface', 'PeptVerif.Lemmas.ParserChain',
                          'PeptVerif.Lemmas.ParserAst', 'PeptVerif.Lemmas.ParserMiddle', 'PeptVerif.Lemmas.ParserRoundTrip', 'PeptVerif.Lemmas.ParserTotal',
                          'PeptVerif.Spec.ProForma', 'PeptVerif.Model.Serialize', 'PeptVerif.Model.Parser', 'PeptVerif.Model.ModText'])
     return chk.finish(classify)
